@@ -5,16 +5,34 @@
    the real code inside Coq on every run (Cases_C02: bytes of the encoder; Cases_C01_dec: value decoded from
    the bytes the library wrote), and the round trip itself is evaluated natively on the real code with a
    reflection oracle (field by field, up to the documented normal form).
-   This file: the table conditions - finite, so vm_compute is a proof - under which no property can be
-   dropped, renamed or moved: every field of every type has exactly one write entry and one read entry,
-   both under the term the type declares, with a writer and a getter of the field's Go type, and a write
-   guard that holds for every set value (negative numbers included).
-   PARTIAL: the generic theorem `tables ok -> forall x, wf_vocab x -> dec (enc x) = Some (Ok (norm x))`
-   is not proved; its instances are checked by C01_roundtrip_example (in Coq) and by the native round trips
-   (every type x every field x every admissible shape exhaustively, random deep values beyond). *)
-From AP.Model Require Import Prelude Bytes Vocab Layout Json JsonLeaf JsonTables JsonEnc JsonCheck JsonCodec.
-From AP.Gen Require Import Layout JsonW JsonR.
 
+   This file, in the order of the proof:
+   1. table conditions (finite, so vm_compute is a proof; re-evaluated on the regenerated tables on every run):
+      the original ones (every field one write and one read entry under its declared term, writer and getter of
+      its Go type, guards no stronger than "set") and the ones the round-trip theorem needs
+      (Model/JsonRoundCheck.v: kinds_ok; Proofs/C01TreeWfP.v: terms_raw_ok);
+   2. layer (a): every leaf codec is inverse on its whole stated domain;
+   3. layer (b): enc x = print (tree_of x) for EVERY x, and the parser model reads every printed tree;
+   4. layer (c): field level, generic over the tables (pair_ok);
+   5. layer (d): dec (enc x) = norm x for every well-formed x (wf_vocab, a boolean predicate; norm explicit and
+      idempotent), generic over all tables that satisfy the conditions of 1, by induction on the nesting depth.
+
+   PARTIAL (C01_roundtrip_partial), the gap named: the theorem is proved for the class wf_vocab, which leaves out
+   values of the struct-valued properties source, endpoints and publicKey (objects that do not set them are
+   covered), nil-like entries (typed nil pointers, empty IRIs, empty lists), the Go type IRIs in an item position,
+   lists nested directly in lists, IRIs outside the URL grammar of Model/Url.v; texts are non-empty valid UTF-8 with
+   pairwise different language tags, and plain-string positions hold no backslash-quote pair (open finding
+   C02/backslash-quote).  The nesting of objects is bounded by 64, the fuel of the decoder model.  Inside that
+   class the statement is unconditional: the encoder model is defined, its output is not empty, the document is
+   inside the decoder model (no member name spelled two ways, nesting <= 130 < fastjson's 300) and decodes to norm x. *)
+From AP.Model Require Import Prelude Bytes Vocab Pred Url Nlv Layout Json JsonLeaf JsonTables Text JsonEnc JsonTree JsonCheck
+     JsonDec JsonCodec JsonNorm JsonRoundCheck.
+From AP.Gen Require Import Layout TypeLists JsonW JsonR.
+From AP.Proofs Require Import TextP C01NumP C01TimeP C01StrP C01TextP C01TreeP C01ParseP C01TreeWfP C01FlatP C01ItemP
+     C01FieldP C01RoundP C01NormP.
+Local Open Scope nat_scope.
+
+(* ------------------------------------------------------------------ 1. table conditions *)
 Theorem C01_write_tables : check_all_w jw_tables layout_of = [].
 Proof. vm_compute. reflexivity. Qed.
 
@@ -24,35 +42,215 @@ Proof. vm_compute. reflexivity. Qed.
 Theorem C01_tables_recognised : tables_recognised_w jw_tables = true /\ tables_recognised_r jr_tables = true.
 Proof. split; vm_compute; reflexivity. Qed.
 
+(* for each of the 14 struct kinds: every read entry has exactly one write entry that fits it (pair_ok), every
+   field of the layout is read exactly once, no two member names a type can write coincide (term, and term+"Map"
+   for texts), the type is read as a string under "type", notEmpty is accumulated (acc_ok) *)
+Theorem C01_round_tables : kinds_ok jw_tables jr_tables layout_of = true.
+Proof. vm_compute. reflexivity. Qed.
+
+(* every member name of every write table is closed under the parser's string scan *)
+Theorem C01_terms_closed : terms_raw_ok jw_tables = true.
+Proof. vm_compute. reflexivity. Qed.
+
+(* the leaf structs accumulate notEmpty too: a Source, PublicKey or Endpoints that writes a member is not dropped *)
+Definition leaf_struct_tables : list bytes := [B "Source_MarshalJSON"; B "PublicKey_MarshalJSON"; B "Endpoints_MarshalJSON"].
+Theorem C01_struct_tables_acc : forallb (acc_ok jw_tables 2) leaf_struct_tables = true.
+Proof. vm_compute. reflexivity. Qed.
+
+Theorem C01_struct_not_dropped : forall name t_i fs ms ne, In name leaf_struct_tables ->
+  t_run_table jw_tables 2 t_i name fs = Some (ms, ne) -> ms <> [] -> ne = true.
+Proof.
+  intros name t_i fs ms ne Hin. apply run_ne.
+  pose proof C01_struct_tables_acc as H. rewrite forallb_forall in H. exact (H name Hin).
+Qed.
+
+Theorem C01_layout_nodup : forall k, NoDup (map fd_fid (layout_of k)).
+Proof. intros k. apply nodup_fid_NoDup. destruct k; vm_compute; reflexivity. Qed.
+
+(* ------------------------------------------------------------------ 2. layer (a): leaf codecs *)
+Theorem C01_leaf_int : forall z, int_dom z = true -> get_int64 (Some (FNum (fmt_int z))) = Some z.
+Proof. exact int_roundtrip. Qed.
+
+Theorem C01_leaf_uint : forall n : N, (n < 10 ^ 18)%N ->
+  get_int64 (Some (FNum (fmt_int (Z.of_N n)))) = Some (Z.of_N n) /\ uint_of (Z.of_N n) = n.
+Proof. exact uint_roundtrip. Qed.
+
+Theorem C01_leaf_decimal : forall m, float_dom m = true -> get_float_micro (Some (FNum (fmt_float m))) = Some m.
+Proof. exact float_roundtrip. Qed.
+
+(* every second of the years 0000 .. 9999 *)
+Theorem C01_leaf_instant : forall secs, time_dom secs = true ->
+  parse_rfc3339 (fmt_rfc3339_utc secs) = Some (Some {| vsecs := secs; vnanos := 0; voff := 0 |}).
+Proof. exact time_roundtrip. Qed.
+
+(* every whole-second duration of the int64 range except zero (which is never written) *)
+Theorem C01_leaf_duration : forall d, dur_dom d = true ->
+  exists b, fmt_xsd_duration d = Some b /\ parse_xsd_duration b = Some d.
+Proof. exact dur_roundtrip. Qed.
+
+(* the two byte-level models of stringBytes (C02's and C06's) are the same function, on every byte string *)
+Theorem C01_leaf_string_models_agree : forall html s, JsonLeaf.string_bytes html s = Text.string_bytes_h html s.
+Proof. exact leaf_string_bytes_eq. Qed.
+
+(* for EVERY byte string, what escapeQuote writes is scanned by the parser up to exactly its closing quote *)
+Theorem C01_leaf_string_scan : forall s tail, fj_raw_string (escape_quote s ++ bQ :: tail) = Some (escape_quote s, tail).
+Proof. intros s tail. apply raw_string_closed. apply escape_quote_raw_ok. Qed.
+
+(* ... and for valid UTF-8 without a backslash-quote pair it decodes to the string (ids, types, MIME types, units, ...) *)
+Theorem C01_leaf_string : forall s, str_ok s = true -> fj_unescape (escape_quote s) = s.
+Proof. exact escape_quote_decodes. Qed.
+
+(* the full escaper (json.Marshal position: publicKeyPem; and every text) for all valid UTF-8 *)
+Theorem C01_leaf_string_full : forall html s, utf8_valid s = true -> fj_unescape (string_bytes_body html s) = s.
+Proof. exact string_bytes_decodes. Qed.
+
+Theorem C01_leaf_iri : forall s, iri_ok s = true -> as_iri (Text.FStr (escape_quote s)) = Some (Some s).
+Proof. exact as_iri_valid. Qed.
+
+(* single- and multi-language maps: a lone entry returns untagged, two or more return as they are *)
+Theorem C01_leaf_text : forall t l, key_plain t = true -> text_ok l = true ->
+  exists tv, t_nlv l = Some tv /\
+    get_nl_field false (FObj [((if Nat.ltb 1 (length l) then t ++ B "Map" else t), tv)]) t
+    = Some (match l with [(_, s)] => [(NilRef, s)] | _ => l end).
+Proof. exact text_roundtrip. Qed.
+
+(* ------------------------------------------------------------------ 3. layer (b): the encoder is a tree printer *)
+(* for EVERY item, every fuel, every table list: no hypothesis at all *)
+Theorem C01_enc_is_print : forall x, enc x = option_map oprint (tree_of jw_tables x).
+Proof. exact (marshal_json_tree jw_tables). Qed.
+
+Theorem C01_parser_reads_printed : forall v, fdepth v <= 300 -> wf_fjv v = true -> fj_parse (fprint v) = Ok v.
+Proof. exact parse_doc_fprint. Qed.
+
+(* every tree the encoder writes, for EVERY item, is one the parser reads *)
+Theorem C01_trees_readable : forall x v, tree_of jw_tables x = Some (Some v) -> wf_fjv v = true.
+Proof. exact (tree_of_wf jw_tables C01_terms_closed). Qed.
+
+Theorem C01_parse_enc : forall x v, tree_of jw_tables x = Some (Some v) -> fdepth v <= 300 ->
+  exists b, enc x = Some b /\ fj_parse b = Ok v.
+Proof. exact (parse_marshal jw_tables C01_terms_closed). Qed.
+
+(* ------------------------------------------------------------------ 4. layer (c): field level, generic over the tables *)
+Section FieldLevel.
+  Variable jw : list (bytes * bool * list wstmt).
+  Variable jr : list (bytes * list rstmt).
+  Variable lay : kind -> list fdecl.
+  Variable reg lsw : bytes -> option kind.
+  Variable acts actors links : list bytes.
+  Variable li : fjv -> option item.       (* the decoder one level down *)
+  Variable g fe : nat.
+  Hypothesis sub_written : forall f p k fs o, wf_item lay reg lsw acts actors links (IObj p k fs) = true -> ddepth (IObj p k fs) <= g ->
+    tree_item jw f (IObj p k fs) = Some o -> exists kvs, o = Some (FObj kvs).
+  Hypothesis sub_read : forall f p k fs kvs, wf_item lay reg lsw acts actors links (IObj p k fs) = true -> ddepth (IObj p k fs) <= g ->
+    tree_item jw f (IObj p k fs) = Some (Some (FObj kvs)) -> li (FObj kvs) = Some (norm_item lay (IObj p k fs)).
+  Hypothesis sub_iri : forall raw u, 1 <= g -> url_classify (fj_unescape raw) = UValid u ->
+    li (Text.FStr raw) = Some (IIri false (fj_unescape raw)).
+  Hypothesis sub_tree : forall f p k fs kvs, wf_item lay reg lsw acts actors links (IObj p k fs) = true -> ddepth (IObj p k fs) <= g ->
+    tree_item jw f (IObj p k fs) = Some (Some (FObj kvs)) -> tree_ok (2 * ddepth (IObj p k fs) + 1) (FObj kvs).
+
+  (* a set field: what its write entry contributed is not empty, and its read entry gets the value back, normalised *)
+  Theorem C01_field_set : forall d fs ms, forallb (fun kv => key_plain (fst kv)) ms = true ->
+    forall ty f e r o v,
+    pair_ok ty f e r = true ->
+    entry_out jw (tree_item jw fe) d fs e = Some o ->
+    (forall k0, In k0 (keys_of e) -> find_key (fun k => k) ms k0 = find_key (fun k => k) o k0) ->
+    getf f fs = Some v -> wf_fval lay reg lsw acts actors links ty v = true -> fdepth_v v <= g ->
+    o <> [] /\ (forall kv, In kv o -> tree_ok (2 * fdepth_v v + 2) (snd kv)) /\
+    exists x, get_value jr li 3 (FObj ms) (rf_getter r) (rf_term r) (rf_conv r) = Some (Some x)
+              /\ link_guard (rf_guard r) x = norm_fval lay v /\ fval_is_zero (norm_fval lay v) = false.
+  Proof. exact (field_set jw jr lay reg lsw acts actors links li g fe sub_written sub_read sub_iri sub_tree). Qed.
+
+  (* an unset field: whatever its write entry wrote (nothing, 0, false, "") is read as the zero value *)
+  Theorem C01_field_unset : forall d fs ms, forallb (fun kv => key_plain (fst kv)) ms = true ->
+    forall ty f e r o,
+    pair_ok ty f e r = true ->
+    (match ty with TSource => source_reads_ok jr (rf_term r) | _ => true end) = true ->
+    entry_out jw (tree_item jw fe) d fs e = Some o ->
+    (forall k0, In k0 (keys_of e) -> find_key (fun k => k) ms k0 = find_key (fun k => k) o k0) ->
+    getf f fs = None ->
+    (forall kv, In kv o -> tree_ok 2 (snd kv)) /\
+    exists ox, get_value jr li 3 (FObj ms) (rf_getter r) (rf_term r) (rf_conv r) = Some ox
+               /\ match ox with None => True | Some x => fval_is_zero (link_guard (rf_guard r) x) = true end.
+  Proof. exact (field_unset jw jr li fe). Qed.
+End FieldLevel.
+
+(* ------------------------------------------------------------------ 5. layer (d): object level *)
+(* generic: for ALL tables satisfying the decidable conditions *)
+Theorem C01_roundtrip_generic :
+  forall jw jr lay reg lsw acts actors links,
+  kinds_ok jw jr lay = true -> terms_raw_ok jw = true ->
+  forall x,
+  wf_item lay reg lsw acts actors links x = true -> ddepth x <= 64 ->
+  exists b, marshal_json jw x = Some b /\ b <> [] /\
+            unmarshal_json jr lay reg lsw acts actors links b = Some (Ok (norm_item lay x)).
+Proof. intros jw jr lay reg lsw acts actors links Hk Ht x. exact (json_roundtrip jw jr lay reg lsw acts actors links Hk x Ht). Qed.
+
+(* the encoder model is defined on every well-formed value (for all tables satisfying kinds_ok) *)
+Theorem C01_enc_defined_generic :
+  forall jw jr lay reg lsw acts actors links,
+  kinds_ok jw jr lay = true ->
+  forall f x, wf_item lay reg lsw acts actors links x = true -> item_size x < f -> exists o, tree_item jw f x = Some o.
+Proof. exact enc_defined. Qed.
+
+(* on the tables of the current tree *)
+Definition wf_vocab : item -> bool := wf_item layout_of registry load_switch tl_ActivityTypes tl_ActorTypes tl_LinkTypes.
+Definition norm : item -> item := norm_item layout_of.
+
+(* FULL statement (not proved):  forall x, wf_vocab' x = true -> exists b, enc x = Some b /\ dec b = Some (Ok (norm x))
+   for a class wf_vocab' that also admits source / endpoints / publicKey values, nil-like entries and objects nested
+   deeper than 64.  Proved: exactly that statement for wf_vocab and nesting <= 64; see the head of this file. *)
+Theorem C01_roundtrip_partial : forall x,
+  wf_vocab x = true -> ddepth x <= 64 ->
+  exists b, enc x = Some b /\ b <> [] /\ dec b = Some (Ok (norm x)).
+Proof.
+  intros x Hw Hd.
+  exact (json_roundtrip jw_tables jr_tables layout_of registry load_switch tl_ActivityTypes tl_ActorTypes tl_LinkTypes
+           C01_round_tables x C01_terms_closed Hw Hd).
+Qed.
+
+(* the document written for a well-formed value is inside the decoder model and at most 2 * depth + 2 deep *)
+Theorem C01_document_shape : forall x o, wf_vocab x = true -> ddepth x <= 64 -> tree_of jw_tables x = Some o ->
+  exists v, o = Some v /\ keys_clean v = true /\ fdepth v <= 2 * ddepth x + 2.
+Proof.
+  intros x o Hw Hd Ht.
+  destruct (tree_round jw_tables jr_tables layout_of registry load_switch tl_ActivityTypes tl_ActorTypes tl_LinkTypes
+              C01_round_tables x o Hw Hd Ht) as [v [-> [[H1 H2] _]]].
+  exists v. repeat split; assumption.
+Qed.
+
+Theorem C01_norm_idempotent : forall x, norm (norm x) = norm x.
+Proof. exact (norm_idem layout_of C01_layout_nodup). Qed.
+
+(* ------------------------------------------------------------------ non-vacuity *)
 (* a nested value of several types goes through the modelled encoder and decoder and comes back in the
    normal form: pointer forms, the lone tagged string untagged, the one-element list as its element *)
 Definition c01_example : item :=
   IObj false KActivity
-    [(F_ID, FStr (B "https://example.com/activities/1")); (F_Type, FStr (B "Create"));
+    [(F_ID, Vocab.FStr (B "https://example.com/activities/1")); (F_Type, Vocab.FStr (B "Create"));
      (F_Name, FNlv (Some [(B "en", B "a name")]));
      (F_Summary, FNlv (Some [(B "en", B "hello"); (B "fr", B "salut")]));
      (F_Published, FTime {| vsecs := 1700000000; vnanos := 0; voff := 3600 |});
      (F_To, FItems (Some [IIri false (B "https://www.w3.org/ns/activitystreams#Public");
-                          IObj true KActor [(F_ID, FStr (B "https://example.com/actors/bob")); (F_Type, FStr (B "Person"));
+                          IObj true KActor [(F_ID, Vocab.FStr (B "https://example.com/actors/bob")); (F_Type, Vocab.FStr (B "Person"));
                                             (F_Inbox, FItem (IIri false (B "https://example.com/actors/bob/inbox")))]]));
      (F_Duration, FDur (-90000000000));
      (F_Actor, FItem (IIri false (B "https://example.com/actors/alice")));
-     (F_Object, FItem (IObj true KPlace [(F_ID, FStr (B "https://example.com/places/1")); (F_Type, FStr (B "Place"));
+     (F_Object, FItem (IObj true KPlace [(F_ID, Vocab.FStr (B "https://example.com/places/1")); (F_Type, Vocab.FStr (B "Place"));
                                          (F_Latitude, FFloat (-33250000)); (F_Radius, FInt (-7));
                                          (F_Attachment, FItem (IItems false (Some [IIri false (B "https://example.com/a/1")])))]))].
 
 Definition c01_example_norm : item :=
   IObj true KActivity
-    [(F_ID, FStr (B "https://example.com/activities/1")); (F_Type, FStr (B "Create"));
+    [(F_ID, Vocab.FStr (B "https://example.com/activities/1")); (F_Type, Vocab.FStr (B "Create"));
      (F_Name, FNlv (Some [(B "-", B "a name")]));
      (F_Published, FTime {| vsecs := 1700000000; vnanos := 0; voff := 0 |});
      (F_Summary, FNlv (Some [(B "en", B "hello"); (B "fr", B "salut")]));
      (F_To, FItems (Some [IIri false (B "https://www.w3.org/ns/activitystreams#Public");
-                          IObj true KActor [(F_ID, FStr (B "https://example.com/actors/bob")); (F_Type, FStr (B "Person"));
+                          IObj true KActor [(F_ID, Vocab.FStr (B "https://example.com/actors/bob")); (F_Type, Vocab.FStr (B "Person"));
                                             (F_Inbox, FItem (IIri false (B "https://example.com/actors/bob/inbox")))]]));
      (F_Duration, FDur (-90000000000));
      (F_Actor, FItem (IIri false (B "https://example.com/actors/alice")));
-     (F_Object, FItem (IObj true KPlace [(F_ID, FStr (B "https://example.com/places/1")); (F_Type, FStr (B "Place"));
+     (F_Object, FItem (IObj true KPlace [(F_ID, Vocab.FStr (B "https://example.com/places/1")); (F_Type, Vocab.FStr (B "Place"));
                                          (F_Attachment, FItem (IIri false (B "https://example.com/a/1")));
                                          (F_Latitude, FFloat (-33250000)); (F_Radius, FInt (-7))]))].
 
@@ -62,6 +260,43 @@ Proof.
   exists (match enc c01_example with Some b => b | None => [] end).
   split; vm_compute; reflexivity.
 Qed.
+
+(* the example satisfies every hypothesis of C01_roundtrip_partial, and the normal form is the one written above *)
+Example C01_roundtrip_hypotheses :
+  wf_vocab c01_example = true /\ ddepth c01_example <= 64 /\ norm c01_example = c01_example_norm.
+Proof.
+  split; [vm_compute; reflexivity|]. split; [vm_compute; repeat constructor|vm_compute; reflexivity].
+Qed.
+
+(* leaf domains are not empty at their ends *)
+Example C01_leaf_domains :
+  int_dom (-999999999999999999) = true /\ int_dom 999999999999999999 = true /\ float_dom (-179999999) = true
+  /\ time_dom (-62167219200) = true /\ time_dom 253402300799 = true /\ dur_dom (-9223372036000000000) = true
+  /\ iri_ok (B "https://example.com/a?b=c#d") = true /\ str_ok (B "caf" ++ [xc3; xa9] ++ B " ""quoted"" \ back") = true.
+Proof. repeat split; vm_compute; reflexivity. Qed.
+
+(* ------------------------------------------------------------------ defects of the pinned tree found by the proof *)
+(* 1. notEmptyObject tested Duration > 0: a well-formed negative duration did not count, so an object with nothing
+      else decoded to nil.  Replay: &Object{Duration: -5 * time.Second}. *)
+Theorem C01_negative_duration_pinned_refuted :
+  exists d, dur_ok d = true /\ notempty_dur d = true /\ notempty_dur_pinned d = false.
+Proof. exists (-5000000000)%Z. vm_compute. repeat split; reflexivity. Qed.
+
+(* 2. Source.MarshalJSON assigned its flag instead of accumulating it: acc_ok fails for the pinned table, and a Source
+      with a media type and a content that writes nothing was not written at all. *)
+Definition jw_Source_MarshalJSON_pinned : list wstmt :=
+  [WProp (B "mediaType") (B "JSONWriteProp") [F_MediaType] (B "MarshalJSON:MimeType") [GLenGt0 F_MediaType; GValNonEmpty] AccSet (B "object.go:744");
+   WProp (B "content") (B "JSONWriteNaturalLanguageProp") [F_Content] (B "") [GLenGt0 F_Content] AccSet (B "object.go:748")].
+Definition jw_tables_pinned : list (bytes * bool * list wstmt) :=
+  map (fun t => if bytes_eqb (fst (fst t)) (B "Source_MarshalJSON") then (fst t, jw_Source_MarshalJSON_pinned) else t) jw_tables.
+Definition c01_source_witness : item :=
+  IObj true KObject [(F_ID, Vocab.FStr (B "https://example.com/o")); (F_Source, FSource (B "text/x") (Some [([], [])]))].
+
+Theorem C01_source_pinned_refuted :
+  acc_ok jw_tables_pinned 2 (B "Source_MarshalJSON") = false
+  /\ marshal_json jw_tables_pinned c01_source_witness = Some (B "{""id"":""https://example.com/o""}")
+  /\ enc c01_source_witness = Some (B "{""id"":""https://example.com/o"",""source"":{""mediaType"":""text/x""}}").
+Proof. repeat split; vm_compute; reflexivity. Qed.
 
 (* ---- durations (fix 5a7198d) ---- *)
 (* the pinned writer (xsd.Marshal of go-xsd-duration) did not write what the reader reads back: 29 days went out as
@@ -73,7 +308,8 @@ Proof.
   exists (29 * 86400 * 1000000000)%Z. split; [reflexivity|]. split; [discriminate|].
   eexists. split; [vm_compute; reflexivity|]. vm_compute. discriminate.
 Qed.
-(* the repaired writer on the same witness and on the boundaries of the month / year rounding *)
+(* the repaired writer on the same witness and on the boundaries of the month / year rounding (now instances of
+   C01_leaf_duration) *)
 Example C01_duration_witnesses_repaired :
   forallb (fun days => match JsonLeaf.fmt_xsd_duration (days * 86400 * 1000000000 + 5000000000) with
                        | Some b => match JsonDec.parse_xsd_duration b with
